@@ -1,9 +1,10 @@
 package loadbalancer
 
-// Demonstration (C19/C12), run with -race: Stop() waits on healthCheckWg while the ticker
-// goroutine may still be inside checkBackendsHealth calling healthCheckWg.Add(1) from a
-// zero counter - WaitGroup misuse that the race detector reports (and that lets Stop
-// return while probe goroutines are still being started).
+// Demonstration (C19/C12): Stop() waits on healthCheckWg while the ticker goroutine may
+// still be inside checkBackendsHealth calling healthCheckWg.Add(1). When the counter drops
+// to zero with Stop waiting and the fan-out then adds the next probe, sync.WaitGroup panics
+// ("WaitGroup misuse: Add called concurrently with Wait" / "WaitGroup is reused before
+// previous Wait has returned") and takes the process down during shutdown.
 
 import (
 	"fmt"
@@ -13,20 +14,25 @@ import (
 	"time"
 
 	"github.com/0xReLogic/Helios/internal/config"
+	"github.com/0xReLogic/Helios/internal/logging"
 )
 
 func TestVerifDemoStopRace(t *testing.T) {
-	be := httptest.NewServer(http.HandlerFunc(func(w http.ResponseWriter, r *http.Request) { time.Sleep(20 * time.Millisecond) }))
+	be := httptest.NewServer(http.HandlerFunc(func(w http.ResponseWriter, r *http.Request) {}))
 	defer be.Close()
-	for i := 0; i < 20; i++ {
+	logging.Init(config.LoggingConfig{Level: "fatal"})
+	for i := 0; i < 30000; i++ {
 		cfg := &config.Config{}
 		cfg.LoadBalancer.Strategy = "round_robin"
-		for j := 0; j < 8; j++ {
+		for j := 0; j < 40; j++ {
 			cfg.Backends = append(cfg.Backends, config.BackendConfig{Name: fmt.Sprintf("b%d", j), Address: be.URL})
 		}
 		cfg.HealthChecks.Active = config.ActiveHealthCheckConfig{Enabled: true, Interval: 5, Timeout: 1, Path: "/"}
-		lb, _ := NewLoadBalancer(cfg)
-		time.Sleep(2 * time.Millisecond) // the initial probes are in flight
+		lb, err := NewLoadBalancer(cfg)
+		if err != nil {
+			t.Fatal(err)
+		}
+		time.Sleep(time.Duration(i%9) * 3 * time.Microsecond)
 		lb.Stop()
 	}
 }
